@@ -218,6 +218,8 @@ class ExprMixin:
             return z3.BoolVal(len(v.t) > 0)
         if n == "fn":
             return z3.BoolVal(True)
+        if n == "OptTuple":
+            return z3.Not(v.t[0])
         if n == "anyref":
             return v.t != 0
         if n == "Opt":
@@ -243,6 +245,8 @@ class ExprMixin:
         ty = v.ty
         if ty == NONE:
             return z3.BoolVal(True)
+        if ty.name == "OptTuple":
+            return v.t[0]
         if ty.name == "Opt":
             if is_reflike(ty.args[0]):
                 return v.t == 0
@@ -722,6 +726,9 @@ class ExprMixin:
                 return r
         if n == "JV":
             return self.jv_index(obj, idx, st, line)
+        if n == "OptTuple":
+            st.raise_if(obj.t[0], "TypeError", line)
+            return self.get_item(obj.t[1], sl, st, node)
         if n == "SDict":
             if idx.ty == STR and z3.is_string_value(idx.t):
                 k = idx.t.as_string()
